@@ -1,30 +1,9 @@
 package batched
 
 import (
-	"github.com/cloudflare/pat-go/tokens"
 	"github.com/cloudflare/pat-go/tokens/type1"
 	"github.com/cloudflare/pat-go/tokens/type2"
 )
-
-// a well-formed batch of n requests over {type 1, type 2}
-func vBatch(n int) ([]tokens.TokenRequestWithDetails, []bool, [][]byte, []byte) {
-	reqs := make([]tokens.TokenRequestWithDetails, n)
-	isT1 := make([]bool, n)
-	elems := make([][]byte, n)
-	ids := make([]byte, n)
-	for i := 0; i < n; i++ {
-		ids[i] = vByte("id")
-		if vBool("t1") {
-			isT1[i] = true
-			elems[i] = vBytes("e1", type1.Ne, type1.Ne)
-			reqs[i] = &type1.BasicPrivateTokenRequest{TokenKeyID: ids[i], BlindedReq: elems[i]}
-		} else {
-			elems[i] = vBytes("e2", 256, 256)
-			reqs[i] = &type2.BasicPublicTokenRequest{TokenKeyID: ids[i], BlindedReq: elems[i]}
-		}
-	}
-	return reqs, isT1, elems, ids
-}
 
 func VerifC04_batched_request_rt() {
 	vUnwind(10)
